@@ -353,7 +353,7 @@ theorem fact_no_dml_omissions : (omissions prods paths).all (fun o => !strictKin
 /-- **The grammar reads no literal it then drops** (outside DDL): every token that carries a lexeme – identifier,
 number, string, placeholder – on the right-hand side of an alternative is used by the alternative's action. (The
 pinned tree had `convert_type: VARCHAR ( INTEGRAL )` dropping the length: `cast(a as varchar(10))` was re-serialised
-as `convert(a, varchar)` – repaired, repo-patches/51.) -/
+as `convert(a, varchar)` – repaired, repo-patches/70.) -/
 theorem fact_grammar_keeps_literals : ∀ e ∈ unusedLiteralTokens, e.1 ∈ ddlRules := by decide
 
 /-- the DELETE node has its two spellings as separate print paths, and both print RETURNING and WHERE -/
